@@ -178,6 +178,24 @@ CHECKS['C16'] = dict(
          'lookups in pseudo-random orders) are a bounded stand-in - not counted as proved.',
     note='trusted: escape pairs are two characters starting with a backslash (C02); rfind modelled as "some occurrence in '
          'the window or -1". One known finding (resource types without a text keyword).')
+CHECKS['C17'] = dict(
+    category='other',
+    technique='contract-based deductive verification (pyvc): Instance.fixup_name over z3 strings, Vec.localise and '
+              'UVAxis.localise over the reals (texture-coordinate invariance as a polynomial identity in the orthonormality '
+              'defect), C09 copy contracts re-run for the template frame, AST effect / termination obligations on '
+              'collapse_one / collapse_all; bounded generator-based collapses',
+    text='Proved on the real code: fixup_name leaves blank, @ and ! names alone and otherwise applies NONE / PREFIX / '
+         'SUFFIX exactly, for all names; Vec.localise(origin, R) is p @ R + origin for all p, R, origin (the in-place '
+         'operators generated by exec templates are reconstructed from the template text); UVAxis.localise keeps the '
+         'texture coordinate of every moved point: u\'(P@R+O) - u(P) equals sum_ij P_i vec_j (row_i.row_j - delta_ij) / '
+         'scale for all reals, which is zero for every rotation. The template frame is the C09 copy contracts (coverage '
+         'and freshness of Entity / Solid / Side / Output / fixup copies, re-run here) plus an effect obligation: every '
+         'store and mutating call of collapse_one goes to the target map, the Instance or a fresh copy. AST obligations: '
+         'placement of brushes / origins / angles, substitution before name fix-up, collapse_all bounded by recur_limit, '
+         'no other unbounded loop or recursion. The composition over whole maps (every visible brush/entity placed, names, '
+         '$variables, repeated and interleaved collapses differing only by placement, cyclic graphs ending in '
+         'RecursionError) is a bounded stand-in on generated templates - not counted as proved.',
+    note='trusted: C04, C05, C09 as dependencies; floats as reals; FGD value types of the bundled database.')
 CHECKS['C18'] = dict(
     category='proof',
     technique='contract-based deductive verification: pyvc proof of RawFileSystem._resolve_path for every input string '
